@@ -66,7 +66,7 @@ CHECKS = {
         design="DESIGN.md §3 C05", note="workloads stay inside the call protocol RedisInput uses; liveness is judged by logical quiescence (ended reader / starved-by-collector) or by a differential second reader at the stalled offset; a stall without such evidence is inconclusive"),
     "C13": dict(level="exploration", engine="fakeredis propagation",
         technique="two site doubles that propagate what a master would (rewrites, no-op omission, MULTI/EXEC) closed into a loop through two real bisync RedisOutputs; origin-tagged client writes; echo / exactly-once / look-alike / ping-pong oracles decided at two-phase sentinels",
-        text="Replay modes sync/pipeline/parallel, five filter classes incl. the documented prefix whitelist, snapshot and incremental phases, late reverse link, replication-lag windows producing shrunk mirrored transactions, Redis 7 SELECT-inside-MULTI propagation with clients in databases 0-3, link restarts (orderly / lost EXEC reply) through the real start-up path, reference filter projection with byte-identical delivery. Master heartbeat (PING) in every loop with idle heartbeat rounds in which no unit - empty or not - may be forwarded; twelve directed cases of a link's own unit arriving behind the deletion of its expired marker. Snapshot phase against a peer that already holds every second key (keyExists replace / ignore); directed probes: the marker of an effectless snapshot unit propagated alone (bare, or as a one-command transaction).",
+        text="Replay modes sync/pipeline/parallel, five filter classes incl. the documented prefix whitelist, snapshot and incremental phases, late reverse link, replication-lag windows producing shrunk mirrored transactions, Redis 7 SELECT-inside-MULTI propagation with clients in databases 0-3, link restarts (orderly / lost EXEC reply) through the real start-up path, reference filter projection with byte-identical delivery. Master heartbeat (PING) in every loop with idle heartbeat rounds in which no unit - empty or not - may be forwarded; twelve directed cases of a link's own unit arriving behind the deletion of its expired marker. Snapshot phase against a peer that already holds every second key (keyExists replace / ignore); directed probes: the marker of an effectless snapshot unit propagated alone (bare, or as a one-command transaction). Half of the snapshot hashes lie above the chunk threshold (lowered to 512 bytes through the hook) and are replayed in several units.",
         design="DESIGN.md §3 C13", note="internal/fakeredis role_propagate models a master's propagation (Redis 6.2/7.2 single-command transaction rule); both sites standalone; " + TRUST),
     "C14": dict(level="fault_enumeration", engine="bisweep",
         technique="request-prefix crash sweep + clean-stop schedule of bisync incremental replay (all three modes) with restart chains through the real start-up bookkeeping; oracles over unit table, frontier/latest/journal keys and StartPoint of successive starts; exhaustive RebuildBisyncFrontier subset check",
